@@ -41,3 +41,12 @@ package predicate
 //@   pure
 //@   requires p != nil
 //@   ensures result == ppu(p) && len(result) == 16
+
+// pstr(p): the printed form of a predicate (Predicate.String). Its relation to Parse is the subject of C05.
+//@ spec func pstr(p *Predicate) String
+//@ props C05
+//@ func (p *Predicate) String
+//@   trusted printed form; round trip with Parse is the subject of C05
+//@   pure
+//@   requires p != nil
+//@   ensures result == pstr(p)
